@@ -250,27 +250,28 @@ inline StringSumHelper &operator+(const StringSumHelper &lhs, float num) { Strin
 inline StringSumHelper &operator+(const StringSumHelper &lhs, double num) { StringSumHelper &a = const_cast<StringSumHelper &>(lhs); a.concat(num); return a; }
 inline StringSumHelper &operator+(const StringSumHelper &lhs, const __FlashStringHelper *rhs) { StringSumHelper &a = const_cast<StringSumHelper &>(lhs); a.concat(rhs); return a; }
 
-class Print {
+// CRTP instead of virtual dispatch (keeps the IR free of vtables); D provides write(uint8_t) and __cell(int).
+template <class D>
+class __vp_print {
 public:
-  virtual size_t write(uint8_t) = 0;
   size_t print(const __FlashStringHelper *s) { return print(reinterpret_cast<const char *>(s)); }
-  size_t print(const String &s) { for (int i = 0; i < s.__len; ++i) __emit_cell(s.__buf[i]); return (size_t)s.__len; }
-  size_t print(const char s[]) { size_t n = 0; while (s && *s) { write((uint8_t)*s); ++s; ++n; } return n; }
-  size_t print(char c) { return write((uint8_t)c); }
-  size_t print(unsigned char v, int base = DEC) { return __emit_cell(__vp_tok_uint(v)); }
-  size_t print(int v, int base = DEC) { return __emit_cell(__vp_tok_int(v)); }
-  size_t print(unsigned int v, int base = DEC) { return __emit_cell(__vp_tok_uint(v)); }
-  size_t print(long v, int base = DEC) { return __emit_cell(__vp_tok_int(v)); }
-  size_t print(unsigned long v, int base = DEC) { return __emit_cell(__vp_tok_uint(v)); }
-  size_t print(double v, int places = 2) { return __emit_cell(__vp_tok_flt(v, places)); }
-  size_t println(void) { write((uint8_t)'\r'); return write((uint8_t)'\n'); }
+  size_t print(const String &s) { for (int i = 0; i < s.__len; ++i) self().__cell(s.__buf[i]); return (size_t)s.__len; }
+  size_t print(const char s[]) { size_t n = 0; while (s && *s) { self().write((uint8_t)*s); ++s; ++n; } return n; }
+  size_t print(char c) { return self().write((uint8_t)c); }
+  size_t print(unsigned char v, int base = DEC) { return self().__cell(__vp_tok_uint(v)); }
+  size_t print(int v, int base = DEC) { return self().__cell(__vp_tok_int(v)); }
+  size_t print(unsigned int v, int base = DEC) { return self().__cell(__vp_tok_uint(v)); }
+  size_t print(long v, int base = DEC) { return self().__cell(__vp_tok_int(v)); }
+  size_t print(unsigned long v, int base = DEC) { return self().__cell(__vp_tok_uint(v)); }
+  size_t print(double v, int places = 2) { return self().__cell(__vp_tok_flt(v, places)); }
+  size_t println(void) { return self().__newline(); }
   template <typename T> size_t println(const T &v) { size_t n = print(v); return n + println(); }
   template <typename T> size_t println(const T &v, int arg) { size_t n = print(v, arg); return n + println(); }
-protected:
-  virtual size_t __emit_cell(int cell) { return write((uint8_t)cell); }
+private:
+  D &self() { return *static_cast<D *>(this); }
 };
 
-class HardwareSerial : public Print {
+class HardwareSerial : public __vp_print<HardwareSerial> {
 public:
   void begin(unsigned long baud) { __vp_serial_begin(baud); }
   void end() {}
@@ -280,23 +281,8 @@ public:
   void flush(void) {}
   operator bool() { return true; }
   size_t write(uint8_t c) { __vp_serial_char((int)c); return 1; }
-  using Print::write;
-  // fast paths keep the piece structure
-  size_t print(const String &s) { __vp_serial_cells(s.__buf, s.__len); return (size_t)s.__len; }
-  size_t print(const char s[]) { __vp_serial_cstr(s); return 0; }
-  size_t print(const __FlashStringHelper *s) { __vp_serial_cstr(reinterpret_cast<const char *>(s)); return 0; }
-  size_t print(char c) { __vp_serial_char((int)(unsigned char)c); return 1; }
-  size_t print(unsigned char v, int base = DEC) { __vp_serial_uint(v); return 1; }
-  size_t print(int v, int base = DEC) { __vp_serial_int(v); return 1; }
-  size_t print(unsigned int v, int base = DEC) { __vp_serial_uint(v); return 1; }
-  size_t print(long v, int base = DEC) { __vp_serial_int(v); return 1; }
-  size_t print(unsigned long v, int base = DEC) { __vp_serial_uint(v); return 1; }
-  size_t print(double v, int places = 2) { __vp_serial_flt(v, places); return 1; }
-  size_t println(void) { __vp_serial_nl(); return 2; }
-  template <typename T> size_t println(const T &v) { size_t n = print(v); __vp_serial_nl(); return n + 2; }
-  template <typename T> size_t println(const T &v, int arg) { size_t n = print(v, arg); __vp_serial_nl(); return n + 2; }
-protected:
-  size_t __emit_cell(int cell) { __vp_serial_cells(&cell, 1); return 1; }
+  size_t __cell(int cell) { __vp_serial_cells(&cell, 1); return 1; }
+  size_t __newline() { __vp_serial_nl(); return 2; }
 };
 
 extern HardwareSerial Serial;
